@@ -50,7 +50,34 @@ class Atom:
     def __iter__(self):
         return iter(self.key)
     def __repr__(self):
-        return repr(self.key)
+        return self.describe(2)
+    def describe(self, depth=2):
+        """Bounded-depth rendering, e.g. [cd_0 < 0], wide#12, sqrt(...)."""
+        def show_key(k, d):
+            if isinstance(k, Atom):
+                return k.describe(d)
+            if isinstance(k, tuple) and k and k[0] == 'p':
+                if d <= 0:
+                    return '...'
+                terms = []
+                for mono, c in k[1][:3]:
+                    ms = '*'.join((show_key(n, d - 1) if isinstance(n, Atom) else str(n)) + ('^%d' % e if e > 1 else '') for n, e in mono)
+                    terms.append(('%s*' % c if c != 1 and ms else (str(c) if not ms else '')) + ms)
+                return ' + '.join(terms) + (' + ...' if len(k[1]) > 3 else '') or '0'
+            if isinstance(k, tuple) and k and k[0] in ('r', 'arr', 't', 's'):
+                return k[0] + '(...)'
+            if isinstance(k, tuple) and k and k[0] == 'c':
+                return str(k[1])
+            return str(k)[:40]
+        if self.kind == 'bool':
+            return '[%s %s %s]' % (show_key(self.key[2], depth), self.key[1], show_key(self.key[3], depth))
+        if self.kind == 'wide':
+            return 'wide#%d' % _ord(self)
+        if self.kind == 'lit':
+            return str(self.key[1])
+        if depth <= 0:
+            return '%s#%d' % (self.kind, _ord(self))
+        return '%s(%s)' % (self.kind, ', '.join(show_key(k, depth - 1) for k in self.key[1:]))
 
 ATOM_TABLE = {}
 
@@ -302,6 +329,28 @@ def atom_key(name, args, keys=None):
 
 def uf(name, *args):
     return Rat(Poly.sym(atom_key(name, args)))
+
+def widen_poly(p, w):
+    """p = sum_G (prod G) * p_G over the distinct sets G of boolean atoms; each group p_G with more
+    than w monomials becomes one `wide` atom keyed by its canonical polynomial key.  The decision
+    is per group, so gated additions never change how the ungated part is represented."""
+    if len(p.t) <= w:
+        return p
+    groups = {}
+    for mono, c in p.t.items():
+        g = tuple(x for x in mono if _is_bool_name(x[0]))
+        rest = tuple(x for x in mono if not _is_bool_name(x[0]))
+        groups.setdefault(g, {})[rest] = c
+    out = Poly()
+    for g, t in groups.items():
+        pg = Poly(t)
+        if len(pg.t) > w:
+            # normalise the scalar content so that c*X and -X widen to multiples of one atom
+            lead = min(pg.t, key=lambda m: tuple((_ord(n), e) for n, e in m))
+            c = pg.t[lead]
+            pg = Poly({(): c}) * uf('wide', Rat(Poly({m: v / c for m, v in pg.t.items()}))).n
+        out = out + Poly({g: Fraction(1)}) * pg
+    return out
 
 def symarr(name, shape):
     a = np.empty(shape, dtype=object)
@@ -608,11 +657,9 @@ class Interp:
         if isinstance(v, Rat):
             return self._widen_rat(v)
         if isinstance(v, np.ndarray) and v.dtype == object:
-            if sum(len(Rat.lift(x).n.t) + len(Rat.lift(x).d.t) for x in v.ravel()) <= self.widen_at:
-                return v
             out = np.empty(v.shape, dtype=object)
             for idx in np.ndindex(*v.shape):
-                out[idx] = self._widen_rat(Rat.lift(v[idx]), force=True)
+                out[idx] = self._widen_rat(Rat.lift(v[idx]))
             return out
         if isinstance(v, Struct):
             return Struct(v.cls, {k: self.widen(x) for k, x in v.f.items()}, home=v.home)
@@ -620,29 +667,10 @@ class Interp:
             return tuple(self.widen(x) for x in v)
         return v
 
-    def _widen_rat(self, r, force=False):
-        n = len(r.n.t) + len(r.d.t)
-        if n <= (4 if force else self.widen_at):
+    def _widen_rat(self, r):
+        if len(r.n.t) <= self.widen_at and len(r.d.t) <= self.widen_at:
             return r
-        return Rat(self._widen_poly(r.n), self._widen_poly(r.d))
-
-    def _widen_poly(self, p):
-        """p = sum_G (prod G) * p_G over the distinct sets G of boolean atoms; each big p_G becomes
-        one `wide` atom keyed by its canonical polynomial key."""
-        if len(p.t) <= 4:
-            return p
-        groups = {}
-        for mono, c in p.t.items():
-            g = tuple(x for x in mono if _is_bool_name(x[0]))
-            rest = tuple(x for x in mono if not _is_bool_name(x[0]))
-            groups.setdefault(g, {})[rest] = c
-        out = Poly()
-        for g, t in groups.items():
-            pg = Poly(t)
-            if len(pg.t) > 4:
-                pg = uf('wide', Rat(pg)).n
-            out = out + Poly({g: Fraction(1)}) * pg
-        return out
+        return Rat(widen_poly(r.n, self.widen_at), widen_poly(r.d, self.widen_at))
 
     # --- lookup
     def lookup(self, name, env, mod):
@@ -988,7 +1016,7 @@ class Interp:
         if isinstance(v, dict):
             if a in ('get', 'items', 'keys', 'values', 'update'):
                 return ('bound', 'dict_' + a, v)
-        if isinstance(v, (tuple, list)) and a in ('index', 'append', 'count'):
+        if isinstance(v, (tuple, list)) and a in ('index', 'append', 'count', 'extend'):
             return ('bound', 'seq_' + a, v)
         raise OutOfFragment('attr %s on %s' % (a, type(v).__name__))
 
@@ -1248,6 +1276,9 @@ class Interp:
         if what == 'dict_update':
             v.update(*args, **kw); return None
         if what == 'seq_index': return v.index(*args)
+        if what == 'seq_extend':
+            v.extend(*args); return None
+        if what == 'seq_count': return v.count(*args)
         if what == 'seq_append':
             v.append(*args); return None
         raise OutOfFragment('bound ' + what)
@@ -1409,12 +1440,13 @@ def fn(mod, name):
         raise AnalysisError('anchor function %s.%s not found' % (mod, name))
     return Closure(m['defs'][name], None, mod, name)
 
-def nested_fn(interp, mod, outer, name):
-    """Closure for a def nested directly in the body of module-level function `outer`."""
+def nested_fn(interp, mod, outer, name, closure_vars=None):
+    """Closure for a def nested in module-level function `outer`; closure_vars supplies the
+    enclosing function's locals the nested def refers to."""
     o = fn(mod, outer)
     for s in ast.walk(o.node):
         if isinstance(s, ast.FunctionDef) and s.name == name and s is not o.node:
-            env = {'v': {}, 'p': None}
+            env = {'v': dict(closure_vars or {}), 'p': None}
             interp.stmt(s, env, mod)
             return env['v'][name]
     raise AnalysisError('anchor nested function %s.%s.%s not found' % (mod, outer, name))
